@@ -20,7 +20,7 @@ Your task:
 2. Make a small source change (a few lines, in the library code under {wt}/emd, not in tests) of the kind a real developer could plausibly commit (an off-by-one, a wrong comparison, a dropped argument, a refactor that forgets a case, a changed default, stale state, two sites that each look fine alone, ...) such that the property above no longer holds, BUT:
    - the package still imports, and the existing test-suite still passes exactly as before:  cd {wt} && PYTHONPATH={wt} /venv/bin/python -m pytest -q -p no:cacheprovider --timeout=900   (38 tests pass on the unmodified worktree; the same must pass with your change);
    - the breakage is NOT exposed by ordinary default use at once: it should need something specific to manifest (an unusual but valid input, a particular option combination, a particular position of an event in the data, a multi-step sequence of operations, a boundary value, ...).
-3. Write a demonstration script {wt}/demo_{pid}.py (a small standalone program using only the public behaviour of the library) that exits 0 and prints PASS on the unmodified code and exits 1 printing FAIL (with a short explanation) with your change applied. Verify both directions yourself (use `git stash` / `git stash pop` or `git diff > patch; git checkout -- emd` to toggle).
+3. Write a demonstration script {wt}/demo_{pid}.py (a small standalone program using only the public behaviour of the library) that exits 0 and prints PASS on the unmodified code and exits 1 printing FAIL (with a short explanation) with your change applied. Verify both directions yourself (toggle with `git diff -- emd > patch.diff; git apply -R patch.diff; ...; git apply patch.diff`; NEVER use `git stash` - the stash is shared between worktrees of other testers).
 4. Leave your change applied in the worktree (uncommitted), and write {wt}/patch.diff containing `git diff -- emd` for it.
 
 Report back: a 3-6 line description of the change, what specific circumstances it needs to manifest, and the exact commands you ran with their outcomes (tests with the change, demo with and without the change). Do not make more than one change; keep it minimal and subtle.""")
